@@ -69,7 +69,11 @@ CHECKS = {
     "C12": dict(cat="fault_enumeration", design="DESIGN.md §3 C12",
                 technique="runtime monitoring with fault injection on the proxy connection: scripted CONNECT replies (every status, every cut offset, garbage, huge/endless bodies) and a live TLS server spliced in behind 2xx replies; event-order oracle over the transport trace (each write tagged with the reply bytes consumed), marker search in the raw proxy-side bytes, decode of the tunnelled request",
                 text="Every reply status 100..599, every truncation offset of three reply heads, refusal bodies around the 10 KiB cap and endless, garbage replies, and a configuration matrix of origin/proxy URL shapes are run; the CONNECT line, Proxy-Authorization, the absence of any write before a complete 2xx head or after a refusal, the ConnectError contents, the absence of caller data in clear on the proxy side, the absence of proxy credentials inside the tunnel and the verification of the tunnelled TLS session against the origin's name (certificate valid only for the proxy's name must be rejected) are checked.",
-                note="Runs with the native-tls backend in this registration; the rustls flavour is exercised by C14's thorough tier. IPv6 origins run with certificate checks waived (see DESIGN.md §8)."),
+                note="Quick runs the native-tls flavour, thorough both TLS flavours. IPv6 origins run with certificate checks waived (see DESIGN.md §8)."),
+    "C14": dict(cat="exploration", design="DESIGN.md §3 C14",
+                technique="runtime monitoring of real TLS handshakes over loopback against fixture certificates (resolver hook H2 maps the names), exhaustive flag/certificate/path/placement matrix decided by a truth table, under both TLS backends (two harness flavours)",
+                text="Every cell of {CA-anchored, self-signed, unknown issuer, expired} x {name matches, differs} x accept_invalid_certs x accept_invalid_hostnames x root added x {direct, CONNECT through a real loopback proxy, https proxy with nested TLS} x {flags set on session, request, clone} is executed together with a sibling / original request that must stay unaffected; success is allowed only where the truth table allows it (safety), and required for the CA->leaf topology on DNS names or when certificate checks are waived (liveness); a rejected peer must never have received the request. Both native-tls and rustls flavours run in quick and thorough.",
+                note="Trusts OpenSSL/rustls to perform the checks they are asked to perform and the fixtures (verified with openssl verify at generation). tls-rustls-native-roots and Windows paths are not run."),
 }
 
 NOT_APPLICABLE = {}
